@@ -230,6 +230,24 @@ A = {
  'C19f-interned-language-pointer': dict(what='state SetLanguage: one *Language per code for all states; the cbor decoder writes into it', needs='Config.Language + persister + a session that switched language',
     history='initially MISSED by C19 and C18 (no configured language anywhere). Fixed by: Config.Language in half of the race histories and the session language in the transcripts (race detector + transcripts); C18 catches it too (C18_LangKept: a new session starts in another session\'s language)'),
  'C20f-first-cleanup-deferred-before-blocked-return': dict(what='engine/db.go runFirst: clean-up deferred before the blocked-session return', needs='pre-VM check, blocked session', history='caught at once (C20_Outcome)'),
+ # ---- round 7 (ten properties: those whose round-6 change had been missed)
+ 'C02g-first-restores-index-before-unwinding': dict(what='engine/db.go runFirst: page index restored BEFORE the scratch level is unwound (State.Up resets it)', needs='pre-VM check + persisted operation + sink of 3+ pages, browsing from page 1',
+    history='caught at once by C04 (C04_ReqNav on program first); MISSED by C02 (no walk had a pre-VM check). Fixed by: every third engine-level walk runs with a pre-VM check'),
+ 'C06g-first-defers-clear-terminate-when-blocked': dict(what='engine/db.go runFirst: the deferred TERMINATE / DIRTY clean-up hoisted above the blocked-session return', needs='pre-VM check + blocked session + another request', history='caught at once (C06_ReqCtl, C20_Outcome)'),
+ 'C08g-readin-restored-conditionally-after-index-error': dict(what='vm/runner.go runInCmp: READIN set again after a failed < only if it was set on entry', needs='INCMP < tested first, page 0, input = previous selector',
+    history='caught at once by C03 (C03_Step); MISSED by C08. Fixed by: C08_ReqContinuable (blocked / pending code after a request exactly as the specification says)'),
+ 'C11g-engine-trims-session-id': dict(what='engine NewEngine: Config.SessionId trimmed', needs='two session ids equal after trimming white space',
+    history='initially MISSED (C11 drove the storage backends only). Fixed by: stage E - families of look-alike ids (white space, case, punctuation, phone-number forms) served through per-request engines over one directory, each compared with itself alone'),
+ 'C12g-persister-sets-prefix-once': dict(what='persist: DATATYPE_STATE selected once in NewPersister, not before Put / Get', needs='application data stored through the same store handle during a request',
+    history='initially MISSED (the store handle was the persister\'s alone). Fixed by: during the warm-up of the crash-atomicity session the application writes data of its own through the same handle between Exec and Finish'),
+ 'C13g-stop-rolls-back-after-failed-commit': dict(what='db/postgres Stop: ROLLBACK on the saved handle after a failed COMMIT (transaction ended twice)', needs='explicit transaction, failing COMMIT at Stop / Close',
+    history='initially MISSED: the double end was seen by the fake only for statements, and the clause sat in an invariant that the sticky-multi finding excuses after an explicit transaction. Fixed by: COMMIT / ROLLBACK on a finished transaction logged by model and fake, C13_NotEndedTwice (never excused)'),
+ 'C16g-writesym-length-as-rune-again': dict(what='asm/asm.go writeSym: w.WriteRune(rune(sz)) (same slip as C14e, found independently for C16)', needs='symbol of 128..255 bytes in assembly source',
+    history='initially MISSED by C16 (symbols of at most 10 bytes; C14 catches it). Fixed by: symbols of 127 / 128 / 200 / 255 bytes in the random sources, a 130-byte symbol in AsmMC'),
+ 'C17g-validinput-trims-before-matching': dict(what='vm/input.go ValidInput: pattern applied to the trimmed input, raw input executed', needs='input with surrounding white space', history='caught at once (C17_Refused)'),
+ 'C18g-reload-does-not-apply-language': dict(what='vm/runner.go: language applied in runLoad only, not for RELOAD', needs='RELOAD of a language-selecting function', history='caught at once (C18_Lang)'),
+ 'C19g-flag-debugger-lazy-write': dict(what='state/debug.go AsList: unnamed flags registered lazily in the package-level registry (write on a read path)', needs='state debugging on + client flag without a debug name + first use while two sessions run',
+    history='initially MISSED twice: no history ran with state debugging, and then the reference (solo) runs, made BEFORE the concurrent phase, had already triggered every lazy initialisation. Fixed by: state debugging in a third of the race histories, references computed AFTER the concurrent phase (which exposed a race in the harness\'s own memo, now guarded)'),
 }
 for sid, a in A.items():
     mp = os.path.join(V, 'seeded', sid, 'meta.json')
